@@ -91,6 +91,8 @@ type v1run struct {
 	stopReq, cancelReq, graceReq  bool
 	stopRet, graceRet             atomic.Bool
 	stopRetLogged, graceRetLogged bool
+	stop2Req, stop2RetLogged      bool // a second Stop() overlapping the first
+	stop2Ret                      atomic.Bool
 	pendingCtl                    atomic.Int32
 	addRm                         atomic.Int32
 	ctlDone                       chan obs
@@ -329,6 +331,13 @@ func (r *v1run) observe() {
 		r.graceRetLogged = true
 		r.emit(obs{E: "GraceRet"})
 	}
+	if r.stop2Ret.Load() && !r.stop2RetLogged {
+		r.stop2RetLogged = true
+		if !r.exited.Load() {
+			r.emit(obs{E: "StopRetEarly", Note: "a second, overlapping Stop() returned while the discipline had not terminated"})
+		}
+		r.emit(obs{E: "Stop2Ret"})
+	}
 }
 
 func (r *v1run) canProduce(c int) bool {
@@ -446,6 +455,10 @@ func (r *v1run) control(what string) bool {
 	switch what {
 	case "stop":
 		if r.stopReq {
+			if !r.stop2Req && !r.stopRet.Load() { // a second call while the first is pending owes the same guarantee when it returns
+				r.stop2Req = true
+				r.ctl("Stop2", func() { r.d.Stop(); r.stop2Ret.Store(true) }, obs{})
+			}
 			return true
 		}
 		r.stopReq = true
